@@ -366,9 +366,46 @@ func checkC17(c *Check) {
 			return true
 		})
 	}
+	// goroutines call no captured function value (a shared cancel func, callback or hook would let
+	// one certificate's exchange influence another's)
+	for _, fs := range c.P.productFuncs() {
+		info := fs.Pkg.TypesInfo
+		ast.Inspect(fs.Decl.Body, func(n ast.Node) bool {
+			g, ok := n.(*ast.GoStmt)
+			if !ok {
+				return true
+			}
+			lit, ok := ast.Unparen(g.Call.Fun).(*ast.FuncLit)
+			if !ok {
+				return true
+			}
+			var bad []string
+			ast.Inspect(lit.Body, func(m ast.Node) bool {
+				call, ok := m.(*ast.CallExpr)
+				if !ok {
+					return true
+				}
+				id, ok := ast.Unparen(call.Fun).(*ast.Ident)
+				if !ok {
+					return true
+				}
+				v, ok := info.Uses[id].(*types.Var)
+				if !ok {
+					return true
+				}
+				if _, isFunc := v.Type().Underlying().(*types.Signature); isFunc && (v.Pos() < lit.Pos() || v.Pos() > lit.End()) {
+					bad = append(bad, c.P.pos(call.Pos())+": call of captured function value "+id.Name)
+				}
+				return true
+			})
+			c.add("O-C17.3", "goroutine in "+c.P.abbrev(fs.Obj.FullName())+" calls no captured function value", "the goroutine body calls only named functions, methods of its own values and its parameters - never a function value captured from the spawner (such as a shared cancel func), through which one exchange could affect another", len(bad) == 0, c.P.pos(g.Pos()), bad...)
+			return true
+		})
+	}
 	c.add("O-C17.1", "every go statement of the module is covered", "all go statements of product code are in the two analysed entry points", len(where) == 0 && ngo >= 3, "", where...)
 	c.floor("go statements in product code", 3, ngo)
 	checkNoSharedState(c, "O-C17.4")
+	responseBodiesClosed(c)
 }
 
 // checkNoSharedState: no package-level variable of the revocation packages is
@@ -449,4 +486,73 @@ func checkNoSharedState(c *Check, rule string) {
 func identOf(e ast.Expr) *ast.Ident {
 	id, _ := ast.Unparen(e).(*ast.Ident)
 	return id
+}
+
+// responseBodiesClosed: O-C17.6 "nothing left behind". For every call in the
+// revocation packages that returns (*http.Response, error): once its error was
+// tested nil, every return that does not hand the response on passes a deferred
+// (or direct) Close of that response's body.
+func responseBodiesClosed(c *Check) {
+	n := 0
+	for _, fs := range c.P.productFuncs() {
+		if !strings.Contains(fs.Pkg.PkgPath, "/revocation") {
+			continue
+		}
+		info := fs.Pkg.TypesInfo
+		has := false
+		ast.Inspect(fs.Decl.Body, func(nd ast.Node) bool {
+			call, ok := nd.(*ast.CallExpr)
+			if !ok {
+				return true
+			}
+			if tup, ok := info.TypeOf(call).(*types.Tuple); ok && tup.Len() == 2 && c.P.typeStr(tup.At(0).Type()) == "*net/http.Response" {
+				has = true
+			}
+			return true
+		})
+		if !has {
+			continue
+		}
+		name := c.P.abbrev(fs.Obj.FullName())
+		pg := c.skeleton(name)
+		if pg == nil {
+			continue
+		}
+		// the calls, by resolved key
+		calls := map[string]bool{}
+		for _, s := range pg.States {
+			for _, e := range s.Out {
+				for _, l := range e.Labels {
+					if l.Kind == "call" && l.T != nil {
+						if sig, ok := callErrIdx[l.T.Name]; ok && sig[1] == 2 && sig[0] == 1 && (strings.HasSuffix(l.T.Name, ".Do") || strings.Contains(l.T.Name, "/ocsp.") || strings.Contains(l.T.Name, "/crl.")) {
+							if isResponseCallee(c, l.T.Name) {
+								calls[l.Key] = true
+							}
+						}
+					}
+				}
+			}
+		}
+		for key := range calls {
+			n++
+			closeLP := LP{Desc: "Close of the response body (deferred or direct)", F: func(l Label) bool {
+				return (l.Kind == "defer" || l.Kind == "call") && strings.Contains(l.Key, ".Close(") && strings.Contains(l.Key, key+"#0.Body")
+			}}
+			rets := returnsWhere(pg, func(s *PState) bool { return retKey(s, 0) != key+"#0" })
+			c.noPathFrom(pg, "O-C17.6", shortCallee(name)+": response body closed on every path", "after the transfer succeeded no return is reached (other than handing the response on) without closing the body: an open body keeps its connection and the client's timeout goroutine alive after the check returned", A("+IsNil("+key+"#1)"), rets, &closeLP)
+		}
+	}
+	c.floor("calls returning an HTTP response in the revocation packages", 3, n)
+}
+
+// isResponseCallee: the callee's first result is *http.Response.
+func isResponseCallee(c *Check, name string) bool {
+	if name == "(*net/http.Client).Do" {
+		return true
+	}
+	if fs := c.P.fn(name); fs != nil {
+		sig := fs.Obj.Type().(*types.Signature)
+		return sig.Results().Len() == 2 && c.P.typeStr(sig.Results().At(0).Type()) == "*net/http.Response"
+	}
+	return false
 }
